@@ -31,6 +31,17 @@ func (m *Mux) HandleRPC(stream drpc.Stream, rpc string) (err error) {
 	}
 
 	out, err := data.receiver(data.srv, stream.Context(), in, stream)
+
+	// the handler has returned without an error, so nothing will ever receive
+	// on this stream again. stop queueing what the client still sends before
+	// the response or the half-close is written: those writes can only
+	// complete once the client reads, and a client that is itself still
+	// writing only gets to read once everything it sent has been taken off
+	// the transport. (an error terminates the stream before it is sent.)
+	if cr, ok := stream.(interface{ CloseRecv() }); ok && err == nil {
+		cr.CloseRecv()
+	}
+
 	switch {
 	case err != nil:
 		return errs.Wrap(err)
